@@ -8,7 +8,7 @@ CHECKS = {
  "C02": ("E-SEQ", "model_checking", "explicit-state BFS; every AddVersion transition compared with the reference model (response, fresh id, stored row, untouched state on reject)",
          "Every AddVersion transition (every parent class, from every reachable state within the bound) is executed on library and HTTP entries over both backends and compared with the reference model: acceptance iff empty or parent = latest, fresh non-nil id, stored parent/payload, conflict names latest and changes nothing.", "4.1, 5/C02"),
  "C03": ("E-SCHED", "model_checking", "stateless model checking of the real code on real threads under a controlled scheduler: DFS over schedules with iterative preemption bounding; brute-force linearizability against the reference model (responses + final state)",
-         "Every pairing of the eight request kinds (plus two-request threads; thorough: triples, SQLite lock-level scheduling points, a concurrently constructed instance) from three initial states runs on 2-3 real OS threads through the library and the actix handlers over the in-memory backend, one SQLite instance and one SQLite instance per thread. The explorer owns every switch (points before Storage::txn, every StorageTxn call, transaction drop, request start); blocking is observed through SQLite's busy handler and the in-memory mutex's try_lock, never assumed. All schedules up to the preemption bound are executed; each must be explained by some real-time-respecting sequential order of the reference model, including the final stored state, and no 5xx/Err/deadlock may appear.", "4.3, 5/C03"),
+         "Every pairing of the eight request kinds (plus two-request threads; thorough: triples, SQLite lock-level scheduling points, a concurrently constructed instance) from three initial states runs on 2-3 real OS threads through the library and the actix handlers over the in-memory backend, one SQLite instance, one SQLite instance per thread and one SQLite instance per *process* (agent processes driven by the same scheduler over pipes, so SQLite's cross-process locking is exercised). The explorer owns every switch (points before Storage::txn, every StorageTxn call, transaction drop, request start); blocking is observed through SQLite's busy handler and the in-memory mutex's try_lock, never assumed. All schedules up to the preemption bound are executed; each must be explained by some real-time-respecting sequential order of the reference model, including the final stored state, and no 5xx/Err/deadlock may appear.", "4.3, 5/C03"),
  "C04": ("E-CRASH", "fault_enumeration", "exhaustive crash-point enumeration: every state-changing VFS call of a request history is a crash point; process-crash image + power-loss images (synced content + every subset of unsynced writes) recovered by the real code",
          "The real SQLite write path runs over a shim VFS that logs every file operation; for every crash point of every history the process-crash image and all power-loss images (all subsets of unsynced writes up to the cap, deviation-bounded above it; thorough: torn sectors) are materialised and recovered by the real SqliteStorage::new, integrity-checked, read back through the protocol and compared with the reference model after the acknowledged prefix or that prefix plus the whole in-flight request; service must continue. The log replayed on the device model must reproduce the on-disk files byte for byte (conformance).", "4.4, 5/C04"),
  "C05": ("E-FAULT", "fault_enumeration", "exhaustive fault-plan enumeration at two layers: k-th Storage/StorageTxn call and k-th VFS call of a request fails (before/after effect, one-shot/sticky), single and double faults, fault-free epilogue",
